@@ -74,6 +74,24 @@ def _taint(v: Any, params: Dict[int, str], depth: int = 0) -> Set[str]:
     return set()
 
 
+def _mentions_param(v: Any, pname: str, params: Dict[int, str], depth: int = 0) -> bool:
+    if depth > 6:
+        return False
+    if isinstance(v, SObj):
+        if params.get(v.uid) == pname:
+            return True
+        c = v.meta.get("call")
+        if c is not None:
+            return _mentions_param(c.get("recv"), pname, params, depth + 1) or any(_mentions_param(a, pname, params, depth + 1) for a in c["args"])
+        return False
+    if isinstance(v, SOpaque):
+        mc = v.__dict__.get("method_call")
+        if mc is not None and _mentions_param(mc["recv"], pname, params, depth + 1):
+            return True
+        return any(_mentions_param(o, pname, params, depth + 1) for o in v.__dict__.get("operands", ()))
+    return False
+
+
 def _run_method(ctx: Ctx, I: Interp, ci: ClassInfo, fn: ast.FunctionDef, meth: str) -> List[Any]:
     cfg = Config()
     cfg.opaque = {SAN}
@@ -181,6 +199,20 @@ def check(ctx: Ctx) -> None:
                 ipar = fn.args.args[1].arg if len(fn.args.args) > 1 else None
                 good = len(sinks) == 1 and sinks[0][1].kind == "store_slice" and isinstance(sinks[0][1].key, tuple) \
                     and all(isinstance(b, SObj) and params.get(b.uid) == ipar for b in sinks[0][1].key)
+                if not good:
+                    # per-node list.insert(<index derived from i> + k, node) inside a loop over the normalised nodes
+                    per_node = [e for _, e, _ in sinks if e.kind == "mutcall" and e.key == "insert" and e.__dict__.get("in_loop") is not None]
+                    cmp_on_i = [a for a, _ in l.atoms if isinstance(a, tuple) and a[0] in ("cmp", "len-cmp", "nonzero") and ipar in repr(a)]
+                    if per_node and len(per_node) == len(sinks) and not cmp_on_i:
+                        idx_arg = per_node[0].value[0] if per_node[0].value else None
+                        from_i = ipar is not None and _mentions_param(idx_arg, ipar, params)
+                        if from_i:
+                            ctx.fail("C14.splice", where, f"self.data.insert({short(idx_arg)}, node) per node",
+                                     f"`insert` places the normalised nodes one at a time at `{short(idx_arg)}` computed from the raw index `{ipar}` without "
+                                     f"normalising a negative index first: list.insert(-1 + k, node) does not continue where the previous node went, so for a "
+                                     f"negative index and an argument that flattens to several nodes the nodes are misplaced / reordered",
+                                     witness="tl = TagList(1, 2, 3, 4); tl.insert(-1, ['a', 'b'])  # expected 1 2 3 a b 4")
+                            continue
                 ctx.require(good, f"TagList.insert does not splice the normalised nodes with one `self[i:i] = nodes` "
                                   f"(found {[repr(e)[:70] for _, e, _ in sinks]}): order of the inserted nodes for all indices cannot be decided")
                 ctx.ok("C14.splice", "TagList.insert splices the normalised nodes at [i:i] in one slice assignment")
